@@ -1357,7 +1357,7 @@ func scriptKey(s script) string {
 
 func layerSeq(h *harness.H) {
 	h.AddRule("seq: one case = one PRNG-generated history of 20-80 ontology operations (define/delete resource, define/delete relationship single and one-to-many over 4 relationship types, begin/commit/abort) over 4-11 identifiers drawn from a pool of prefix/suffix-related type:key strings; distinct = distinct operation script; non-trivial = at least one relationship accepted and at least one traversal compared against a non-empty expected set")
-	n := h.N(2000, 100000)
+	n := h.N(3000, 120000)
 	parallel(h, "seq", n, func(w *worker, c int) {
 		r := h.Rand("seq", c)
 		s := genScript(r, h.Quick())
